@@ -88,6 +88,8 @@ extern "C" {
     fn new_wmc_params_poly() -> *mut WmcParams<Polynomial<RealSemiring>>;
     fn wmc_param_poly_set_weight(w: *mut WmcParams<Polynomial<RealSemiring>>, var: u64, low: *const f64, low_len: usize, high: *const f64, high_len: usize);
     fn wmc_param_poly_var_weight(w: *mut WmcParams<Polynomial<RealSemiring>>, var: u64) -> WeightPoly;
+    fn new_polynomial(coeffs: *const f64, len: usize) -> *mut Polynomial<RealSemiring>;
+    fn destroy_polynomial(p: *mut Polynomial<RealSemiring>);
     fn polynomial_len(p: *mut Polynomial<RealSemiring>) -> usize;
     fn polynomial_get_coeffs(p: *mut Polynomial<RealSemiring>, buffer: *mut f64, max_len: usize) -> usize;
     fn bdd_wmc_poly(b: *mut BP, w: *mut WmcParams<Polynomial<RealSemiring>>) -> *mut Polynomial<RealSemiring>;
@@ -151,8 +153,16 @@ fn set_weights(ctx: &mut Ctx, wt: &mut WeightTables, var: u64, r: &mut Rng) -> R
     let (l, h) = (r.below(9) as f64 / 4.0, r.below(9) as f64 / 4.0);
     let cl = Complex { re: r.below(5) as f64 / 2.0, im: r.below(5) as f64 / 2.0 - 1.0 };
     let ch = Complex { re: r.below(5) as f64 / 2.0, im: r.below(5) as f64 / 2.0 - 1.0 };
-    let pl: Vec<f64> = (0..(1 + r.below(3))).map(|_| r.below(5) as f64 / 2.0).collect();
-    let ph: Vec<f64> = (0..(1 + r.below(3))).map(|_| r.below(5) as f64 / 2.0).collect();
+    // mostly short polynomials; sometimes the boundary lengths around the 32-coefficient limit, or none
+    let mut plen = |r: &mut Rng| -> u64 {
+        match r.below(12) {
+            0 => *r.pick(&[0u64, 31, 32, 33, 40]),
+            _ => 1 + r.below(3),
+        }
+    };
+    let (ll, lh) = (plen(r), plen(r));
+    let pl: Vec<f64> = (0..ll).map(|_| r.below(5) as f64 / 2.0).collect();
+    let ph: Vec<f64> = (0..lh).map(|_| r.below(5) as f64 / 2.0).collect();
     unsafe {
         wmc_param_f64_set_weight(wt.c_real, var, l, h);
         wmc_param_complex_set_weight(wt.c_complex, var, cl, ch);
@@ -161,7 +171,11 @@ fn set_weights(ctx: &mut Ctx, wt: &mut WeightTables, var: u64, r: &mut Rng) -> R
     wt.n_real.set_weight(VarLabel::new(var), RealSemiring(l), RealSemiring(h));
     wt.n_complex.set_weight(VarLabel::new(var), cl, ch);
     wt.n_poly.set_weight(VarLabel::new(var), poly_from(&pl), poly_from(&ph));
-    // read back through the C getters
+    // read back through the C getters (skipped under Miri: the harness has to re-declare the private
+    // #[repr(C)] return structs, which Miri does not accept as ABI-compatible with the originals)
+    if cfg!(miri) {
+        return Ok(());
+    }
     unsafe {
         let w = wmc_param_f64_var_weight(wt.c_real, var);
         ctx.check("C18", "ffi-weight-readback", weight_f64_lo(w) == l && weight_f64_hi(w) == h, || format!("wmc_param_f64_var_weight(x{var}) = ({}, {}), set ({l}, {h})", weight_f64_lo(w), weight_f64_hi(w)))?;
@@ -170,11 +184,21 @@ fn set_weights(ctx: &mut Ctx, wt: &mut WeightTables, var: u64, r: &mut Rng) -> R
         let w = wmc_param_poly_var_weight(wt.c_poly, var);
         let mut buf = [0f64; MAX_COEFFS];
         let k = polynomial_get_coeffs(w.low, buf.as_mut_ptr(), MAX_COEFFS);
-        ctx.check("C18", "ffi-weight-readback", polynomial_len(w.low) == pl.len() && k == pl.len() && buf[..k] == pl[..], || {
+        // the documented marshalling keeps at most MAX_COEFFS coefficients
+        let (wl, wh) = (pl.len().min(MAX_COEFFS), ph.len().min(MAX_COEFFS));
+        ctx.check("C18", "ffi-weight-readback", polynomial_len(w.low) == wl && k == wl && buf[..k] == pl[..wl], || {
             format!("wmc_param_poly_var_weight(x{var}).low = {:?} (len {}), set {:?}", &buf[..k], polynomial_len(w.low), pl)
         })?;
         let k = polynomial_get_coeffs(w.high, buf.as_mut_ptr(), MAX_COEFFS);
-        ctx.check("C18", "ffi-weight-readback", k == ph.len() && buf[..k] == ph[..], || format!("wmc_param_poly_var_weight(x{var}).high = {:?}, set {:?}", &buf[..k], ph))?;
+        ctx.check("C18", "ffi-weight-readback", polynomial_len(w.high) == wh && k == wh && buf[..k] == ph[..wh], || format!("wmc_param_poly_var_weight(x{var}).high = {:?}, set {:?}", &buf[..k], ph))?;
+        // the free-standing polynomial constructor and a short read buffer
+        let np = new_polynomial(pl.as_ptr(), pl.len());
+        let short = wl / 2 + 1;
+        let k2 = polynomial_get_coeffs(np, buf.as_mut_ptr(), short);
+        ctx.check("C18", "ffi-polynomial-roundtrip", polynomial_len(np) == wl && k2 == wl.min(short) && buf[..k2] == pl[..k2], || {
+            format!("new_polynomial({:?}) read back as {:?} (len {})", pl, &buf[..k2], polynomial_len(np))
+        })?;
+        destroy_polynomial(np);
     }
     Ok(())
 }
